@@ -8,5 +8,11 @@
 #include "Print.h"
 extern Print VerifSerial;
 #define SERIAL_PORT_MONITOR VerifSerial
+// VERIF_UL: width of millis() (uint32_t in the 32-bit variant of the clock driver, see vf/clocks.py)
+#ifdef VERIF_UL
+#include <stdint.h>
+extern "C" VERIF_UL millis();
+#else
 extern "C" unsigned long millis();
+#endif
 #endif
